@@ -93,7 +93,7 @@ CHECKS["C07"] = ("Proof: C07.listed_kind_is_recorded_kind / kind_words — the k
                  "description's files with exactly their content; chain following on any linked table, size formula, load side counts, efficient "
                  "reader = readFile. Tie/oracle: images from an independent writer (Python twin = Lean render, incl. one 157-block chain) through real "
                  "list/extract vs model vs abstract files.", D, "7 C07")
-CHECKS["C10"] = ("Proof: C10.created_catalogs_follow_storage_order / added_files_are_appended — on every side of every created image, and after any --add, the live catalog entries are exactly the first n: each stored file is appended after those stored before it; C10.placement_rule — a file offered while the cursor is on side cur is stored on the first side k >= cur that has enough "
+CHECKS["C10"] = ("Proof: C10.report_sections_list_the_files_in_order — section k of the report and side k of the image list the same sources in the same order (as lists); C10.created_catalogs_follow_storage_order / added_files_are_appended — on every side of every created image, and after any --add, the live catalog entries are exactly the first n: each stored file is appended after those stored before it; C10.placement_rule — a file offered while the cursor is on side cur is stored on the first side k >= cur that has enough "
                  "free blocks and a free catalog entry, the cursor stops there; if none can take it, it is stored nowhere and the cursor ends past "
                  "the fourth side; end_of_side_marker (cursor + 1, no side touched); C10.file_stored_in_one_place — one file offered to the injector, with all its retries on the following sides, either "
                  "leaves every catalog slot of every side as it was or appears in exactly one slot of one side that held nothing, with its whole "
